@@ -17,6 +17,8 @@ package file
 //@ requires runner != nil && distinctNames(runOrder)
 //@ requires I01(cp(s))
 //@ modifies fexists, fdata, last, ranCount
+//@ crashinv [C10] I01(cp(s))
+//@ at call Run#0: assert [C10,invalidated-before-run] diskOK(cp(s)) ==> diskGet(cp(s), taskToRun.Name) == ""
 //@ ensures [I01] I01(cp(s))
 //@ ensures [shape] result1 == nil ==> len(result0) == len(runOrder) && forall i int :: {result0[i]} 0 <= i && i < len(result0) ==> result0[i].Task == runOrder[i].Name
 //@ ensures [C01] result1 == nil ==> forall i int :: {result0[i]} 0 <= i && i < len(result0) && result0[i].Skipped ==> last[runOrder[i].Name] != "" && last[runOrder[i].Name] == cur(mapval(s.Globs), runOrder[i])
